@@ -204,6 +204,8 @@ def case_wrapper(EoN, p):
     derivatives, constants phiS0 = 1-rho, phiR0 = 0, R0 = 0, N = G.order(), initial vector = Phi(theta=1, R=0)"""
     from . import ode_oracles as O
     import numpy as np
+    if p['wrapper'] in ('EBCM_uniform_introduction', 'EBCM_discrete_uniform_introduction', 'EBCM_pref_mix'):
+        return case_wrapper_pk(EoN, p)
     G = O.graph_from_desc(p['graph']); N = G.order(); rho = p['rho']; tau, g = p['tau'], p['gamma']
     degs = [d for _, d in G.degree()]; K = max(degs) + 1
     c = [(1 - rho) * degs.count(k) / N for k in range(K)]
@@ -254,6 +256,47 @@ def case_wrapper(EoN, p):
             return 'initial S_si = %s (R0=%s), the manifold point Phi_ed(1,0) is %s' % (fl(np.array(Ssi0).ravel()), R0, fl(want.ravel()))
         return None
     return 'unknown wrapper'
+
+
+def case_wrapper_pk(EoN, p):
+    """what the degree-distribution entry points hand on: EBCM(_discrete)_uniform_introduction pass psihat = (1-rho) psi, psihat' = (1-rho) psi',
+    phiS0 = 1-rho, phiR0 = 0, R0 = 0 (the instance the pref-mix theorems compare with); EBCM_pref_mix starts odeint at [0, 1, 0, 1, 0, ..] = Phi_pm(1,0)"""
+    import numpy as np
+    Pk = {int(k): float(F(v)) for k, v in p['Pk'].items()}; rho = p['rho']; N = p['N']; w = p['wrapper']
+    psi = lambda x: sum(Pk[k] * x ** k for k in Pk); psiP = lambda x: sum(k * Pk[k] * x ** (k - 1) for k in Pk)
+    if w in ('EBCM_uniform_introduction', 'EBCM_discrete_uniform_introduction'):
+        if w == 'EBCM_uniform_introduction':
+            b = capture(EoN, w, 'EBCM', N, psi, psiP, p['tau'], p['gamma'], rho)
+            N_, psihat, psihatPrime, _tau, _g, phiS0 = b['a'][:6]
+        else:
+            b = capture(EoN, w, 'EBCM_discrete', N, psi, psiP, p['p'], rho)
+            N_, psihat, psihatPrime, _p, phiS0 = b['a'][:5]
+        k = b['k']
+        for x in p['xs']:
+            if not (C.close(float(psihat(x)), (1 - rho) * psi(x)) and C.close(float(psihatPrime(x)), (1 - rho) * psiP(x))):
+                return '%s passes psihat(%.4g) = %.12g, psihatPrime = %.12g; expected (1-rho) psi = %.12g, (1-rho) psi\' = %.12g' % (w, x, psihat(x), psihatPrime(x), (1 - rho) * psi(x), (1 - rho) * psiP(x))
+        if not (C.close(phiS0, 1 - rho) and C.close(k.get('phiR0', 0), 0) and C.close(k.get('R0', 0), 0) and N_ == N):
+            return '%s passes N=%s phiS0=%s phiR0=%s R0=%s, expected N=%s phiS0=1-rho=%s phiR0=0 R0=0' % (w, N_, phiS0, k.get('phiR0', 0), k.get('R0', 0), N, 1 - rho)
+        return None
+    A = EoN.analytic
+    orig = A.integrate.odeint; box = {}
+
+    def spy(f, x0, ts, args=()):
+        box['x0'] = np.array(x0, dtype=float); box['args'] = args
+        raise _Stop()
+    A.integrate.odeint = spy
+    try:
+        EoN.EBCM_pref_mix(N, Pk, uncorrelated(Pk), p['tau'], p['gamma'], rho=rho, tmax=1, tcount=3)
+    except _Stop:
+        pass
+    finally:
+        A.integrate.odeint = orig
+    want = [0.0] + [1.0, 0.0] * len(Pk)
+    if not closev(box.get('x0', []), want):
+        return 'EBCM_pref_mix starts odeint at %s, the point Phi_pm(theta=1, R=0) of the invariant subspace is %s' % (fl(box.get('x0', [])), want)
+    if not C.close(float(box['args'][0]), rho):
+        return 'EBCM_pref_mix passes rho=%s to its right-hand side, expected %s' % (box['args'][0], rho)
+    return None
 
 
 CASES = {'x_spec': case_spec, 'x_wrapper': case_wrapper}
@@ -331,6 +374,10 @@ def wrapper_points(rng, n):
                     xs=[rng.randint(2, 16) / 16.0 for _ in range(3)])
         for w in WRAPPERS:
             out.append(dict(base, wrapper=w))
+        Pk = rand_Pkdict(rng)
+        pkb = dict(Pk={str(k): str(v) for k, v in Pk.items()}, rho=base['rho'], N=rng.choice([50, 1000]), tau=base['tau'], gamma=base['gamma'], p=rng.choice([0.25, 0.5]), xs=base['xs'])
+        for w in ('EBCM_uniform_introduction', 'EBCM_discrete_uniform_introduction', 'EBCM_pref_mix'):
+            out.append(dict(pkb, wrapper=w))
     return out
 
 
